@@ -14,6 +14,20 @@ def as_held(r, a, forms=FORMS, allow_list=True):
     form = str(forms[int(r.integers(0, len(forms)))])
     if form == "f" and a.ndim >= 2:
         return np.asfortranarray(a.copy()), "fortran"
+    if form == "view" and a.ndim == 2 and a.size and a.dtype.kind in "fiub":
+        k = int(r.integers(0, 3))
+        fill = 77 if a.dtype.itemsize == 1 else -12345
+        if k == 1:
+            # a window of longer records: rows contiguous but not packed
+            big = np.full((a.shape[0], a.shape[1] + 3), fill, dtype=a.dtype)
+            big[:, 1:1 + a.shape[1]] = a
+            v = big[:, 1:1 + a.shape[1]]
+            return v, "row-pitch-view"
+        if k == 2:
+            # every second row of a larger ensemble
+            big = np.full((2 * a.shape[0], a.shape[1]), fill, dtype=a.dtype)
+            big[::2] = a
+            return big[::2], "row-skip-view"
     if form == "view" and a.ndim >= 1 and a.size:
         # every second element of a larger buffer along each axis
         big = np.zeros(tuple(2 * s for s in a.shape), dtype=a.dtype)
